@@ -129,7 +129,7 @@ def part_a(spec, rng, counters, digests, samples, violations, known):
         if not isinstance(e, R.BaseRef):
             continue
         text = str(e)
-        if re.search(r"\b(inf|nan)\b", text):
+        if re.search(NONFINITE, text):
             # a literal-only sub-term folded to a non-finite constant: outside the property's language
             counters["skipped_non_finite_constant"] = counters.get("skipped_non_finite_constant", 0) + 1
             continue
@@ -220,6 +220,11 @@ def mirrored(real, twin, op, op2, counters, relab=False):
     return None
 
 
+# constants outside the property's language: inf / nan / complex (literal-only sub-terms fold to them,
+# e.g. (-8.0) ** 0.5, or an in-place update captures one); repr(complex(-0.0, -0.0)) does not even re-read as itself
+NONFINITE = r"\b(inf|nan)\b|[0-9.]j\b"
+
+
 def buildable(shadow, runner, term):
     """Can Python build this term, and does it print with finite constants only (the property's language)?"""
     try:
@@ -228,7 +233,7 @@ def buildable(shadow, runner, term):
         text = str(runner.build(term))
     except Exception:
         return False
-    return not re.search(r"\b(inf|nan)\b", text)
+    return not re.search(NONFINITE, text)
 
 
 def part_bc(spec, rng, counters, digests, samples, violations, known):
@@ -255,7 +260,7 @@ def part_bc(spec, rng, counters, digests, samples, violations, known):
             continue
         real = ls.runner
         dump = real.mgr.dump()
-        if any(re.search(r"\b(inf|nan)\b", rhs) for _, rhs in dump):
+        if any(re.search(NONFINITE, rhs) for _, rhs in dump):
             counters["managers_skipped_non_finite_constant"] = counters.get("managers_skipped_non_finite_constant", 0) + 1
             continue
         wit = {"world": hg.world, "ops": list(ls.ops)}
